@@ -148,6 +148,7 @@ type stmtRec struct {
 	fn, site, text, target string
 	holes                  []string
 	hasHole                bool
+	external               bool // the hole is (also) fed by a parameter of an exported function
 }
 
 type dsnRec struct{ fn, site, text, class string }
@@ -213,6 +214,7 @@ func collectStmts(w *World) ([]stmtRec, []dsnRec, []string) {
 				}
 				rec := stmtRec{fn: fi.qual(), site: site(fi, call), target: targetOf(w, sel.X, fi, 0)}
 				parts := flatten(call.Args[idx], fi, 0)
+				nExt := len(c.external)
 				var sb strings.Builder
 				for _, part := range parts {
 					alts := c.evalStr(part, fi, 0)
@@ -231,6 +233,7 @@ func collectStmts(w *World) ([]stmtRec, []dsnRec, []string) {
 					sb.WriteString(holeMarker)
 				}
 				rec.text = sb.String()
+				rec.external = len(c.external) > nExt || (rec.hasHole && feedsFromExported(c, call.Args[idx], fi))
 				out = append(out, rec)
 				return true
 			})
@@ -242,6 +245,17 @@ func collectStmts(w *World) ([]stmtRec, []dsnRec, []string) {
 	}
 	sort.Strings(ext)
 	return out, dsns, ext
+}
+
+// feedsFromExported re-evaluates the argument with a fresh context and reports
+// whether an exported function's parameter was met on the way (the shared
+// context may have recorded the same parameter for an earlier site already).
+func feedsFromExported(c *strCtx, e ast.Expr, fi *FuncInfo) bool {
+	c2 := &strCtx{w: c.w, external: map[string]bool{}, seen: map[string]bool{}}
+	for _, part := range flatten(e, fi, 0) {
+		c2.evalStr(part, fi, 0)
+	}
+	return len(c2.external) > 0
 }
 
 // looksLikeHandle: x.Begin() is only a statement site when x is a database handle.
